@@ -207,7 +207,7 @@ def run_unit(scratch, unit, harnesses, log_dir, extra_flags=(), timeout_s=3600):
             continue
         h.full_name = full[0]
         e = errs.get(h.full_name)
-        pd = props.get(h.full_name, {})
+        pd = props.get(h.full_name) or {}
         h.checks = pd.get('total_properties')
         if e is None:
             h.result = 'error'
@@ -217,26 +217,52 @@ def run_unit(scratch, unit, harnesses, log_dir, extra_flags=(), timeout_s=3600):
             st = (e.get('exit_status') or '') + ' ' + (e.get('error_type') or '')
             if 'timeout' in st.lower() or 'timed' in st.lower():
                 h.result = 'timeout'
-            elif pd.get('failed', 0) > 0:
+            elif (pd.get('failed') or 0) > 0:
                 h.result = 'fail'
             elif pd.get('undetermined', 0) or pd.get('solver_error', 0):
                 h.result = 'error'
             else:
                 h.result = 'error' if 'properties_failed' not in st else 'fail'
             h.error_detail = e
-    # attach failed-check text and times by scanning result blocks in order
-    for m in re.finditer(r'(?ms)VERIFICATION RESULT:\n(.*?)\nVERIFICATION:- (SUCCESSFUL|FAILED)\nVerification Time: ([0-9.]+)s', out):
-        body = m.group(1)
-        fc = re.findall(r'Failed Checks: (.*?)\n File: "([^"]+)", line (\d+), in (\S+)', body)
-        for msg, f, ln, fn in fc:
-            for h in harnesses:
-                if h.full_name and (fn == h.full_name or fn.endswith('::' + h.name)):
-                    h.failed_checks.append({'msg': msg, 'file': f, 'line': int(ln)})
-    # failed checks inside callee code are attributed through the summary when not matched
+    # attach failed-check text and times: with -j each result block is prefixed by its thread id,
+    # and the thread's current harness is the last "Thread N: Checking harness" line before it
+    cur = {}
+    blk_thread = None
+    by_full = {h.full_name: h for h in harnesses if h.full_name}
+    lines = out.splitlines()
+    k = 0
+    while k < len(lines):
+        line = lines[k]
+        m = re.match(r'(?:Thread (\d+): )?Checking harness (\S+?)\.\.\.', line)
+        if m:
+            cur[m.group(1) or '0'] = m.group(2)
+        m = re.match(r'Thread (\d+): *$', line)
+        if m:
+            blk_thread = m.group(1)
+        if line.startswith('VERIFICATION RESULT:'):
+            hname = cur.get(blk_thread or '0')
+            h = by_full.get(hname)
+            k += 1
+            while k < len(lines) and not lines[k].startswith('Verification Time:'):
+                mm = re.match(r'Failed Checks: (.*)', lines[k])
+                if mm and h is not None:
+                    loc = lines[k + 1] if k + 1 < len(lines) else ''
+                    ml = re.match(r'\s*File: "([^"]+)", line (\d+), in (\S+)', loc)
+                    h.failed_checks.append({'msg': mm.group(1), 'file': ml.group(1) if ml else '', 'line': int(ml.group(2)) if ml else 0,
+                                            'in': ml.group(3) if ml else ''})
+                k += 1
+            if k < len(lines) and h is not None:
+                mt = re.match(r'Verification Time: ([0-9.]+)s', lines[k])
+                if mt:
+                    h.time_s = float(mt.group(1))
+            blk_thread = None
+        k += 1
     for h in harnesses:
-        if h.result == 'fail' and not h.failed_checks:
-            mm = re.findall(r'Failed Checks: (.*?)\n File: "([^"]+)", line (\d+), in (\S+)', out)
-            h.failed_checks = [{'msg': a, 'file': b, 'line': int(c), 'in': d} for a, b, c, d in mm][:10]
+        # an unwinding-assertion failure is a bound problem of the harness, not a refutation
+        if h.result == 'fail' and h.failed_checks and all('unwinding assertion' in c['msg'] for c in h.failed_checks):
+            h.result = 'error'
+        elif h.result == 'fail' and any('unwinding assertion' in c['msg'] for c in h.failed_checks):
+            h.result = 'error'
     info['data'] = {'tools': data.get('tools'), 'kani_version': data.get('metadata', {}).get('kani_version')}
     info['out_tail'] = out[-2500:]
     return info
@@ -279,6 +305,12 @@ def playback(scratch, unit, harness, log_dir):
             s = s[:k] + '\n' + test_src + '\n}\n'
             open(p2, 'w').write(s)
             break
+    # the native replay is compiled by plain rustc (cargo test): use the real tracing crate there
+    ct = os.path.join(scratch.dir, 'Cargo.toml')
+    t = open(ct).read()
+    t2 = re.sub(r'\ntracing = \{ path = [^\n]*\n', '\n', t)
+    if t2 != t:
+        open(ct, 'w').write(t2)
     cmd2 = ['cargo', 'kani', 'playback', '-p', unit.crate, '-Z', 'concrete-playback', '--', tn.group(1)]
     env = dict(env)
     env['CARGO_TARGET_DIR'] = TARGET_DIR + '-playback'
@@ -298,4 +330,5 @@ def playback(scratch, unit, harness, log_dir):
         res['native_tail'] = o2[-2500:]
     except subprocess.TimeoutExpired:
         res['native'] = 'native replay timed out'
+    open(ct, 'w').write(t)  # restore the no-op tracing patch for later Kani runs in this scratch copy
     return res
